@@ -1407,6 +1407,8 @@ fn run_script(fam: &[Entry], rts: &[Runtime<NoCtx>], drv: &mut Driver, rep: &mut
             let hist_json: Vec<Value> = history.iter().map(|(nm, e)| json!({"name": nm, "rust_type": fam[*e].show()})).collect();
             let input = json!({
                 "seed": seed, "index": index, "env": cx.env,
+                "host_types": [format!("{} = Val<Foo>", cx.reg_path(0)), format!("{} = Val<Bar>", cx.reg_path(1))],
+                "redeclared_by_script": cx.shadow.iter().map(|s| s.0).collect::<Vec<_>>(),
                 "script": script.src,
                 "function": pr.decl.map(|di| script.decls[di].show(&cx)),
                 "name": pr.name,
@@ -1472,10 +1474,14 @@ fn run_script(fam: &[Entry], rts: &[Runtime<NoCtx>], drv: &mut Driver, rep: &mut
             None => "true".into(),
         };
         rep.class(format!("{}|{}|{}|a{}", pr.label, kind, class_s, e.args.len()));
-        if pr.decl.is_some() && (expected_ok || pr.label.starts_with("swapped") || pr.label == "leaf-changed" || pr.label.contains("redeclared") || pr.label.contains("named") || pr.label == "prefix-of-parameters") {
+        // one sample per label, the trigger classes of the boundary stream first
+        let wanted = ["redeclared-name", "filtermap-redeclared-name", "named-like-primitive", "as-primitive-of-same-name", "prefix-of-parameters", "exact", "filtermap-exact", "leaf-changed", "swapped-type-args"];
+        if pr.decl.is_some() && wanted.contains(&pr.label.as_str()) {
             let dup = rep.samples.iter().filter(|s| s["label"] == pr.label.as_str()).count();
             if dup < 1 {
-                rep.sample(json!({"function": script.decls[pr.decl.unwrap()].show(&cx), "rust_type": e.show(), "label": pr.label, "real": real_s, "model": j.model, "env": cx.env}));
+                rep.sample(json!({"function": script.decls[pr.decl.unwrap()].show(&cx), "rust_type": e.show(), "label": pr.label, "real": real_s, "model": j.model,
+                    "host_types": [format!("{} = Val<Foo>", cx.reg_path(0)), format!("{} = Val<Bar>", cx.reg_path(1))],
+                    "redeclared_by_script": cx.shadow.iter().map(|s| s.0).collect::<Vec<_>>()}));
             }
         }
     }
